@@ -429,6 +429,12 @@ def finish(res: Result, build: dict, rule: str, trusted: list[str], assumptions:
                             "correspondence only") for k, v in (build.get("py_tie") or {}).items()},
         leanchecker=build.get("leanchecker", "not run (quick tier)"),
     )
+    for k, v in (build.get("py_tie") or {}).items():
+        if not v.get("ok"):   # loud, but not a verdict: the correspondence check is then the only tie (DESIGN 4.1a)
+            msg = (f"translator tie lost: {v.get('func') or k} is outside the translated subset ({v.get('why')}); its "
+                   f"bridge theorems in Props/{prop}py*.lean are not obligations on this run — correspondence only")
+            print(msg, file=sys.stderr)
+            cov["notes"] = list(cov.get("notes") or []) + [msg]
     cov.update(res.extra)
     ev = dict(property_id=prop, tier=res.tier, seed=res.seed, level="proof", coverage=cov,
               assumptions=assumptions, wall_s=round(time.time() - res.t0, 2), violations=violations)
